@@ -84,7 +84,10 @@ def run_image(c):
     peak = im.max()
     noise = peak / c["snr"]
     img = im + rng.normal(scale=noise, size=im.shape)
-    if c.get("negative"):
+    if "offset" in c:
+        # noise-dominated image with an over-subtracted background: the measured source flux is negative about half the time or always
+        img = rng.normal(size=im.shape) + c["offset"]
+    elif c.get("negative"):
         img = -img
     mask = None
     if c["mask"]:
